@@ -28,10 +28,41 @@ def trees(rng):
             sc.f(b'/W/S/f%d' % i, text=b'z' * (i * 97 % 3000))
         sc.d(b'/W/S/sub'); sc.f(b'/W/S/sub/big', text=b'B' * 40000)
         sc.opts = ['r']; sc.extra = ['--block-size', '1000']; sc.paths = [b'S', b'DEST']; sc.tag = 'many-files'; out.append(sc)
+        # one sparse file whose data needs more block jobs than the bounded pool queue holds, a single worker
+        sc = treerun.Scn(); sc.driver = driver
+        sc.d(b'/W').d(b'/W/S'); sc.opts = ['r']; sc.extra = ['--block-size', '4096']; sc.paths = [b'S', b'DEST']; sc.tag = 'sparse-many-blocks'; sc.only_workers = (1, 2)
+        sc.sparse = (b'/W/S/sp', [(0, 262144 * 5)], 262144 * 5 + 8 * 1048576)
+        out.append(sc)
+        # every worker dies silently (a FIFO whose destination name is an existing directory: no Error update) while the
+        # walker still has hundreds of entries to send
+        sc = treerun.Scn(); sc.driver = driver
+        sc.d(b'/W').d(b'/W/pipes').d(b'/W/files').d(b'/W/DEST').d(b'/W/DEST/pipes')
+        for i in range(8):
+            sc.s(b'/W/pipes/p%d' % i, 'fifo'); sc.d(b'/W/DEST/pipes/p%d' % i); sc.f(b'/W/DEST/pipes/p%d/x' % i)
+        for i in range(700):
+            sc.f(b'/W/files/f%d' % i, text=b'')
+        sc.opts = ['r']; sc.paths = [b'pipes', b'files', b'DEST']; sc.tag = 'all-workers-die-silently'; sc.only_workers = (1, 2, 4); out.append(sc)
         sc = treerun.Scn(); sc.driver = driver
         sc.d(b'/W').d(b'/W/S').f(b'/W/S/a').d(b'/W/DEST').s(b'/W/DEST/S', 'fifo')
         sc.opts = ['r', 'n']; sc.paths = [b'S', b'DEST']; sc.tag = 'fifo-at-destination-noclobber'; out.append(sc)
     return out
+
+
+def run_with_sparse(base, sc, limit):
+    """treerun.run, plus an optional big sparse file written after materialisation (the tree model is not consulted here)"""
+    sp = getattr(sc, 'sparse', None)
+    if not sp:
+        return treerun.run(base, sc, trace=True, timeout=limit)
+    import subprocess
+    from .. import fsutil
+    root = base + '/R'
+    subprocess.run(f'rm -rf {root}', shell=True); os.makedirs(root)
+    treerun.materialise(root, sc)
+    fsutil.make_file(root + sp[0].decode(), sp[2], sp[1], seed=5)
+    o = treerun.Run(); o.root = root; o.argv = treerun.argv(root, sc)
+    os.makedirs(base + '/aux', exist_ok=True)
+    o.res = scen.run_xcp(base + '/aux', o.argv, cwd=treerun.real(root, sc.cwd), trace=True, timeout=limit)
+    return o
 
 
 def run(ctx):
@@ -41,9 +72,9 @@ def run(ctx):
     rng = ctx.rng
     with core.Scratch('c07') as base:
         for sc in trees(rng):
-            for workers in ((1, 64) if ctx.quick else (1, 2, 3, 8, 64)):
+            for workers in (getattr(sc, 'only_workers', None) or ((1, 64) if ctx.quick else (1, 2, 3, 8, 64))):
                 sc.workers = workers
-                o0 = treerun.run(base, sc, trace=True, timeout=LIMIT)
+                o0 = run_with_sparse(base, sc, LIMIT)
                 ctx.count(f'tree.{sc.tag}'); ctx.count(f'workers.{workers}'); ctx.count(f'exit.{o0.res.cls}')
                 ctx.case((sc.tag, sc.driver, workers, 'plain'), True, sample=dict(tree=sc.tag, driver=sc.driver, workers=workers, exit=o0.res.cls, wall_s=round(o0.res.wall, 3)) if workers == 64 and sc.tag in ('specials', 'many-files') else None)
                 if o0.res.cls == 'hang':
@@ -52,7 +83,7 @@ def run(ctx):
                 opened = [e for e in o0.res.trace if e['sys'] == 'openat' and e['ret'] >= 0 and any(x in (e.get('fdpath') or '') for x in ('/fifo', '/sock', 'onlyfifo'))]
                 if opened:
                     ctx.violation(f'{sc.tag}-{sc.driver}-opened.json', dict(events=opened[:5]), 'C07/C14: a FIFO or socket source was opened')
-                if workers != 1:
+                if workers != 1 or sc.tag == 'all-workers-die-silently':
                     continue
                 # a single fault at every step-call, each under a perturbed schedule
                 occ, plans = {}, []
@@ -77,6 +108,15 @@ def run(ctx):
                     if o.res.cls == 'hang':
                         ctx.violation(f'{sc.tag}-{sc.driver}-fault-{j}-hang.json', dict(tree=sc.tag, driver=sc.driver, workers=sc.workers, plan=plan, argv=[repr(x) for x in o.argv]),
                                       f'C07: xcp hung after a failing {site} ({sc.driver}, {sc.workers} workers, plan {plan})')
+        # a source whose size lies (sysfs: st_size 4096, a few bytes delivered) on another file system (copy_file_range: EXDEV)
+        sysf = '/sys/devices/system/cpu/online'
+        if os.path.exists(sysf):
+            for driver in ('parfile', 'parblock'):
+                d = base + '/sysfs'; shutil.rmtree(d, ignore_errors=True); os.makedirs(d)
+                r = scen.run_xcp(d, ['--driver', driver, sysf, d + '/out'], timeout=LIMIT)
+                ctx.count('sysfs.' + r.cls); ctx.case(('sysfs', driver), True, sample=dict(source=sysf, driver=driver, exit=r.cls))
+                if r.cls == 'hang':
+                    ctx.violation(f'sysfs-{driver}-hang.json', dict(source=sysf, driver=driver), f'C07: xcp spins copying {sysf} (short source, copy_file_range refused) with {driver}')
         # library clients: the copy call returns and the channel closes, with and without faults
         root = base + '/lib'
         os.makedirs(root)
